@@ -36,7 +36,7 @@ from .c19 import SymStr, sv, re_stub, WORD
 PROP = "C11"
 Z3_TIMEOUT_MS = 3000
 CVC5_TIMEOUT_MS = 25000
-FILTER = r"#decl|#emit|#loop|#comment|add_op#|#flags|#getter|#names|fbody#|bundle_usage#|declaration-shape|#well-sorted|#total|#ends-with-return|#order|#reset\.(holder|transformer)|dead-arm-side-effect|live-arm-side-effect|#children: every operand the emitter reads"
+FILTER = r"#decl|#emit|#loop|#comment|add_op#|#flags|#getter|#names|fbody#|bundle_usage#|declaration-shape|#well-sorted|#total|#ends-with-return|#order|#reset\.(holder|transformer)|#history-independent|dead-arm-side-effect|live-arm-side-effect|#children: every operand the emitter reads"
 
 MUTANTS = [
     {"name": "Branch.__str__: arms printed on their own lines (the statement comment spills into the code)", "file": "rzilcompiler/Transformer/Effects/Branch.py",
